@@ -1415,6 +1415,19 @@ def fuzz_inputs(ctx, scale):
             size = (1 << bits) + r
             for t in (1, 2, 3):
                 yield 'size-trunc', struct.pack('>BHI', t, 1, size) + b'X' * r + b'\xce' * 3
+    # 7g. the same name twice in one table, every ordered pair of value kinds (a peer may send it; whatever the decoder does with
+    #     the second one, it returns or refuses with the library's exception)
+    kinds_ = [b'I\x00\x00\x00\x07', b'S\x00\x00\x00\x02hi', b't\x01', b'V', b'F\x00\x00\x00\x04\x01aV', b'F\x00\x00\x00\x00',
+              b'A\x00\x00\x00\x02Vt'[:-1] + b'V', b'A\x00\x00\x00\x00', b'D\x02\x00\x00\x01\x3a', b'x\x00\x00\x00\x01\xff']
+    for v1 in kinds_:
+        for v2 in kinds_:
+            idx += 1
+            if not mine(ctx, idx):
+                continue
+            pair = b'\x03dup' + v1 + b'\x03dup' + v2
+            yield 'dup-key', table_frame(pair)
+            yield 'dup-key-nested', table_frame(b'\x01n' + b'F' + struct.pack('>I', len(pair)) + pair)
+            yield 'dup-key-headers', wiregen.envelope(2, 1, struct.pack('>HHQH', 60, 0, 0, 0x2000) + struct.pack('>I', len(pair)) + pair)
     # 7f. volume of DISTINCT names in one frame (beyond any plausible cache size), and names that are bait for a backtracking
     #     pattern: a long run of name characters, optionally broken by separators, ended by one character that is not one
     for nkeys in ((300, 1100) if ctx.quick else (300, 1100, 2600)):
